@@ -45,6 +45,7 @@ EVIDENCE_DIR = os.path.join(ROOT, ".work", "scratch-evidence") if SCRATCH else o
 REPLAY_DIR = os.path.join(ROOT, ".work", "scratch-replay") if SCRATCH else os.path.join(ROOT, "replay")
 MAX_SAMPLES = 8
 MAX_WITNESS_PER_KEY = 3
+_AUTO_SAMPLE_AT = frozenset((1, 2, 10, 100, 1000, 10000, 100000))
 
 
 def jsonable(x, depth=0):
@@ -195,6 +196,10 @@ class Run:
             self.trivial += 1
         if sample is not None:
             self.sample(sample, tag=tag)
+        elif len(self.samples) < MAX_SAMPLES and nontrivial and self.evaluations in _AUTO_SAMPLE_AT:
+            # every evidence file shows a few of the actual cases even when the property
+            # module never nominates one: the case as it was digested (class tag + inputs)
+            self.samples.append({"tag": tag, "auto": True, "case": jsonable(list(digest_parts))})
 
     def sample(self, obj, tag=None):
         # keep the first few and then a thin reservoir so samples span the run
